@@ -70,6 +70,9 @@ type conn struct {
 
 	mu            sync.Mutex
 	subscriptions map[string]*reactive.Rerunner
+	// mutations holds the ids in subscriptions that belong to a mutation in
+	// flight: the subscription logger never heard of those.
+	mutations map[string]bool
 
 	alwaysSpawnGoroutineFunc AlwaysSpawnGoroutineFunc
 	minRerunIntervalFunc     RerunIntervalFunc
@@ -378,8 +381,21 @@ func (c *conn) handleMutate(in *inEnvelope) error {
 		return nil, errors.New("stop")
 	}, c.minRerunIntervalFunc(c.ctx, query), c.alwaysSpawnGoroutineFunc(c.ctx, query))
 	c.subscriptions[id] = runner
+	c.mutations[id] = true
 
 	return nil
+}
+
+// forget removes id from the connection's bookkeeping and tells the
+// subscription logger that a subscription, not a mutation, has ended.
+// c.mu must be held.
+func (c *conn) forget(id string) {
+	delete(c.subscriptions, id)
+	if c.mutations[id] {
+		delete(c.mutations, id)
+		return
+	}
+	c.subscriptionLogger.Unsubscribe(c.ctx, id)
 }
 
 func (c *conn) rerunSubscriptionsImmediately() {
@@ -397,8 +413,7 @@ func (c *conn) closeSubscription(id string) {
 
 	if runner, ok := c.subscriptions[id]; ok {
 		runner.Stop()
-		delete(c.subscriptions, id)
-		c.subscriptionLogger.Unsubscribe(c.ctx, id)
+		c.forget(id)
 		verifConn("close.found", id, nil)
 	} else {
 		verifConn("close.miss", id, nil)
@@ -414,8 +429,7 @@ func (c *conn) closeSubscriptionOf(id string, runner **reactive.Rerunner, key in
 
 	if current, ok := c.subscriptions[id]; ok && current == *runner {
 		current.Stop()
-		delete(c.subscriptions, id)
-		c.subscriptionLogger.Unsubscribe(c.ctx, id)
+		c.forget(id)
 		verifConn("close.deferred.found", id, key)
 	} else {
 		verifConn("close.deferred.miss", id, key)
@@ -428,8 +442,7 @@ func (c *conn) closeSubscriptions() {
 
 	for id, runner := range c.subscriptions {
 		runner.Stop()
-		delete(c.subscriptions, id)
-		c.subscriptionLogger.Unsubscribe(c.ctx, id)
+		c.forget(id)
 	}
 	verifConn("closeAll", "", nil)
 }
@@ -547,6 +560,7 @@ func CreateConnection(ctx context.Context, socket JSONSocket, schema *Schema, op
 		mutationSchema:     schema,
 		executor:           NewExecutor(NewImmediateGoroutineScheduler()),
 		subscriptions:      make(map[string]*reactive.Rerunner),
+		mutations:          make(map[string]bool),
 		subscriptionLogger: &nopSubscriptionLogger{},
 		logger:             &nopGraphqlLogger{},
 		makeCtx: func(ctx context.Context) context.Context {
